@@ -89,6 +89,8 @@ BRK_PAIRS = {'quick': 12000, 'thorough': 400000}
 BRK_MALFORMED = {'quick': 3000, 'thorough': 80000}     # as MALFORMED
 MULTIBLOCK = {'quick': 1600, 'thorough': 50000}        # base scripts; each yields 8..15 truncations
 BRK_DIFFE = {'quick': 600, 'thorough': 30000}
+EMPTY = {'quick': 2400, 'thorough': 60000}             # old == new (empty script), random files; + a complete matrix
+EMPTY_DIFFE = {'quick': 300, 'thorough': 8000}
 
 FLOORS = {
     'quick': {'nontrivial': 64000,
@@ -140,6 +142,11 @@ DIFFE_BRK_FLOOR = {'quick': 160, 'thorough': 8500}     # ... of which scripts wh
 ALPHA = ['a', 'b', 'c', '', 'x y', '..', '. ', ' .', '.x', '...', '1a', '2,3d', 'd', '0a', '3c', '1,2c', 'a.',
          'é', '١a', '\t', 'x\r', '.\r', 's/.//', 'w', 'q']
 SRC = ('list', 'iter', 'file')
+# how the caller consumes the patches besides piping the iterator straight into patch_lines (always done):
+#   list / tuple - patches = list(...) / tuple(...), then patch_lines(lines, patches)
+#   two-pass     - iterate once (remember what each yielded triple looked like at that moment), read the collected
+#                  list once more without touching it (validate), apply it, apply it again to a second copy
+USES = ('list', 'tuple', 'two-pass')
 SRC_BRK = ('list', 'iter', 'file', 'disk')
 SRC_BRK_W = ('list', 'iter', 'file') * 3 + ('disk',) * 2        # random choice: a real file costs ~10x a StringIO
 # str.splitlines() boundaries other than LF (bytes.splitlines() only knows CR; VT and FF are the bytes a
@@ -409,15 +416,16 @@ def conclusive(tier, counters, monitor_evals, extra):
 
 def cases(ctx):
     thorough = ctx.tier == 'thorough'
+    ru = ctx.rng('use')                  # own stream: the pair / script streams stay what they were
     for i, (old, new) in enumerate(enum_pairs()):
         if ctx.mine(i):
             yield {'kind': 'pair', 'old': old, 'new': new, 'src': SRC[i % 3], 'split': False, 'mode': 'both',
-                   'from': 'enum'}
+                   'use': 'all', 'from': 'enum'}
     r = ctx.rng('pairs')
     for i in range(ctx.size(PAIRS['quick'], PAIRS['thorough'])):
         old, new = gen_pair(r, thorough)
         yield {'kind': 'pair', 'old': old, 'new': new, 'src': r.choice(SRC), 'split': r.random() < 0.15,
-               'mode': 'both', 'from': 'random'}
+               'mode': 'both', 'use': ru.choice(USES), 'from': 'random'}
     r = ctx.rng('malformed')
     n = 0
     want = ctx.size(MALFORMED['quick'], MALFORMED['thorough'])
@@ -438,8 +446,10 @@ def cases(ctx):
         r = ctx.rng('diffe')
         for i in range(ctx.size(DIFFE['quick'], DIFFE['thorough'])):
             old, new = gen_pair(r, thorough)
-            yield {'kind': 'diffe', 'old': old, 'new': new, 'src': r.choice(SRC), 'mode': 'both'}
+            yield {'kind': 'diffe', 'old': old, 'new': new, 'src': r.choice(SRC), 'mode': 'both', 'use': ru.choice(USES)}
     for case in brk_cases(ctx, thorough):
+        yield case
+    for case in empty_cases(ctx, thorough):
         yield case
 
 
@@ -454,14 +464,16 @@ def _enc(r, *line_lists):
 def brk_cases(ctx, thorough):
     """Line-boundary class and multi-block truncations (see RULE)."""
     # complete matrix, application + the cuts of every text block
+    ru = ctx.rng('brk-use')
     r = ctx.rng('brk-enum')
     for i, (old, new) in enumerate(enum_brk_pairs()):
         if not ctx.mine(i):
             continue
         old, new = list(old), list(new)
-        for src in (SRC_BRK[i % 4], SRC_BRK[(i % 4 + 1 + (i // 4) % 3) % 4]):     # two different source kinds
+        for j, src in enumerate((SRC_BRK[i % 4], SRC_BRK[(i % 4 + 1 + (i // 4) % 3) % 4])):   # two different source kinds
             yield {'kind': 'pair', 'old': old, 'new': new, 'src': src, 'split': False, 'mode': 'both',
-                   'enc': 'latin-1' if _latin1(old, new) and (i // 2) % 2 else 'utf-8', 'from': 'brk-enum'}
+                   'enc': 'latin-1' if _latin1(old, new) and (i // 2) % 2 else 'utf-8',
+                   'use': USES[(i // 4 + j) % 3], 'from': 'brk-enum'}
         script, blocks = edscript.make_ed_script_indexed(old, new)
         for blk in blocks:
             if blk['letter'] != 'd':
@@ -473,7 +485,7 @@ def brk_cases(ctx, thorough):
     for i in range(ctx.size(BRK_PAIRS['quick'], BRK_PAIRS['thorough'])):
         old, new = gen_pair(r, thorough, brk=True)
         yield {'kind': 'pair', 'old': old, 'new': new, 'src': r.choice(SRC_BRK_W), 'split': r.random() < 0.15,
-               'mode': 'both', 'enc': _enc(r, old, new), 'from': 'brk-random'}
+               'mode': 'both', 'enc': _enc(r, old, new), 'use': ru.choice(USES), 'from': 'brk-random'}
     # malformed scripts over the same content
     r = ctx.rng('brk-malformed')
     n = 0
@@ -506,7 +518,7 @@ def brk_cases(ctx, thorough):
         src = SRC_BRK_W if brk else SRC
         if n % 4 == 0:
             yield {'kind': 'script', 'old': old, 'new': new, 'script': script, 'src': r.choice(src), 'mode': 'both',
-                   'enc': _enc(r, old, new), 'from': 'multiblock'}
+                   'enc': _enc(r, old, new), 'use': 'all', 'from': 'multiblock'}
         roles = [('last', tb[-1]), ('middle', r.choice(tb[1:-1]))]
         if r.random() < 0.3:
             roles.append(('first', tb[0]))
@@ -520,7 +532,40 @@ def brk_cases(ctx, thorough):
         for i in range(ctx.size(BRK_DIFFE['quick'], BRK_DIFFE['thorough'])):
             old, new = gen_pair(r, thorough, brk=True)
             yield {'kind': 'diffe', 'old': old, 'new': new, 'src': r.choice(SRC_BRK_W), 'mode': 'both',
-                   'enc': _enc(r, old, new), 'from': 'brk-diffe'}
+                   'enc': _enc(r, old, new), 'use': ru.choice(USES), 'from': 'brk-diffe'}
+
+
+EMPTY_FILES = [[], ['1\n'], ['1\n', '2\n', '3\n'], ['\n'], ['.x\n', '1a\n', '..\n', '2,3d\n'], ['a\x85.\n', '\r\n']]
+
+
+def empty_cases(ctx, thorough):
+    """EMPTY SCRIPT: old == new (see RULE)."""
+    have_diff = bool(shutil.which('diff'))
+    i = 0
+    for old in EMPTY_FILES:                                       # complete: file x source x use (x str / bytes)
+        for src in SRC_BRK:
+            for use in USES:
+                for kind in (('pair', 'diffe') if have_diff else ('pair',)):
+                    if ctx.mine(i):
+                        yield {'kind': kind, 'old': list(old), 'new': list(old), 'src': src, 'split': False,
+                               'mode': 'both', 'enc': 'latin-1' if _latin1(old) and i % 2 else 'utf-8', 'use': use,
+                               'from': 'empty-enum'}
+                    i += 1
+    r = ctx.rng('empty')
+    for kind, total in (('pair', EMPTY), ('diffe', EMPTY_DIFFE)):
+        if kind == 'diffe' and not have_diff:
+            continue
+        for i in range(ctx.size(total['quick'], total['thorough'])):
+            n = r.choice([0, 0, 1, 1, 2, 3, 5, 8, 12])
+            k = r.random()
+            if k < 0.3:
+                old = ['L%d\n' % j for j in range(1, n + 1)]
+            elif k < 0.65:
+                old = [_old_plain(r) for _ in range(n)]
+            else:
+                old = [_old_brk(r) for _ in range(n)]
+            yield {'kind': kind, 'old': old, 'new': list(old), 'src': r.choice(SRC_BRK_W), 'split': False,
+                   'mode': 'both', 'enc': _enc(r, old), 'use': r.choice(USES), 'from': 'empty-random'}
 
 
 # ---------------------------------------------------------------------------
@@ -719,30 +764,210 @@ def check_apply(ctx, old, script, new, case, via):
         ctx.count('brk:apply/break-before-newline')
     if script and _brk_profile([l for l in old if l in new])[0]:
         ctx.count('brk:apply/old-line-kept')
+    empty = not script
+    if empty:
+        ctx.count('empty:apply')
+        ctx.count('empty:src:%s' % src)
+        ctx.count('empty:via:%s' % via)
+        ctx.count('empty:old-empty' if not old else 'empty:old-nonempty')
+        if not old:
+            ctx.count('empty:old-empty/src:%s' % src)
+            ctx.count('empty:old-empty/via:%s' % via)
+        if _brk_profile(old)[0]:
+            ctx.count('empty:old-has-break')
+    uses = case.get('use', 'list')
+    uses = USES if uses == 'all' else (() if uses == 'none' else (uses,))
+    ntexts = [p[3] for p in parsed if p[3]]
+    if len(parsed) >= 2:
+        ctx.count('collect:patches>=2', len(uses))
+    multi = len(ntexts) >= 2 and any(t != ntexts[0] for t in ntexts)    # where one shared text object cannot be right
     for mode in _modes(case):
         o, s, n = _conv(old, mode, enc), _conv(script, mode, enc), _conv(new, mode, enc)
-        small = {'kind': 'script', 'old': old, 'script': script, 'new': new, 'src': src, 'mode': mode, 'enc': enc}
+        o0 = list(o)
+        small = {'kind': 'script', 'old': old, 'script': script, 'new': new, 'src': src, 'mode': mode, 'enc': enc,
+                 'use': 'none'}
         ctx.mon('M.apply')
         if via == 'diffe':
             ctx.mon('M.diffe')
         if embedded:
             ctx.mon('M.apply.brk')
+        if empty:
+            ctx.mon('M.apply.empty')
+            ctx.count('empty:mode:%s' % mode)
         ctx.count('mode:%s' % mode)
         source, eff = _source(ctx, s, src, mode)
         try:
             ret = ds.patch_lines(o, ds.patches_from_ed_script(source))
         except Exception as e:
-            ctx.violation('wellformed-script-rejected/%s' % type(e).__name__,
+            ctx.violation(('empty-script-rejected/%s' if empty else 'wellformed-script-rejected/%s') % type(e).__name__,
                           '%s script %r on %r raised %r (expected result %r)' % (mode, script, old, e, new), small)
             continue
         finally:
             _close(source)
+        want = [(f, l, _conv(t, mode, enc)) for (f, l, t) in edscript.to_patches(parsed)]
         if o != n:                      # list against list: every element is one line
-            want = [(f, l, _conv(t, mode, enc)) for (f, l, t) in edscript.to_patches(parsed)]
-            key = _name_mechanism(ctx, ds, s, mode, eff, want)
+            if empty:
+                key = 'empty-script-changes-lines'
+            else:
+                key = _name_mechanism(ctx, ds, s, mode, eff, want)
             ctx.violation(key, '%s: old=%r script=%r expected=%r got=%r' % (mode, old, script, n, o), small)
+            continue                    # already reported; the collected forms would only repeat it
         elif ret is not None:
             pass    # return value is not part of the statement
+        for use in uses:
+            check_collected(ctx, ds, o0, s, n, want, src, mode, use, small, empty, multi)
+
+
+def _snap(p):
+    """A yielded patch by value: (first, last, list(text)), or None when it is not such a triple."""
+    try:
+        first, last, text = p
+        return (first, last, list(text))
+    except Exception:       # noqa - reported as not-a-triple
+        return None
+
+
+def _model_apply(lines, triples):
+    """The documented meaning of a patch stream (replace lines[first:last] by the replacement lines, in order), written
+    without slice assignment; None when a triple is outside 0 <= first <= last <= len."""
+    lines = list(lines)
+    for t in triples:
+        if t is None:
+            return None
+        first, last, text = t
+        if not (isinstance(first, int) and isinstance(last, int) and 0 <= first <= last <= len(lines)):
+            return None
+        lines = lines[:first] + list(text) + lines[last:]
+    return lines
+
+
+def check_collected(ctx, ds, old_t, s, new_t, want, src, mode, use, small, empty, multi=False):
+    """M.collect: the patches are COLLECTED first (list / tuple / two-pass), then applied - the result must be the
+    target.  M.triples: the collected triples are compared with the reference interpreter's, by value after the whole
+    script has been consumed and by identity of the text objects; that comparison only NAMES the mechanism (or counts
+    an equivalent formulation), the verdict is the application result."""
+    small = dict(small)
+    small['use'] = use
+    ctx.mon('M.collect')
+    ctx.count('collect:use:%s' % use)
+    ctx.count('collect:src:%s' % src)
+    ctx.count('collect:mode:%s' % mode)
+    if empty:
+        ctx.count('empty:use:%s' % use)
+    if multi:
+        ctx.count('collect:different-texts>=2')
+        ctx.count('collect:different-texts>=2/use:%s' % use)
+    source, eff = _source(ctx, s, src, mode)
+    at_yield = None
+    try:
+        if use == 'list':
+            patches = list(ds.patches_from_ed_script(source))
+        elif use == 'tuple':
+            patches = tuple(ds.patches_from_ed_script(source))
+        else:
+            if eff == 'list':
+                # validate-first idiom: the script (a list) is parsed once for its errors only, then parsed again
+                for _ in ds.patches_from_ed_script(source):
+                    pass
+                ctx.count('collect:script-list-parsed-twice')
+                if source != list(s):
+                    ctx.violation('collected-patches/script-list-altered-by-parsing',
+                                  '%s: script %r is %r after one pass of patches_from_ed_script over it'
+                                  % (mode, s, source), small)
+                    return
+            patches, at_yield = [], []
+            for p in ds.patches_from_ed_script(source):
+                patches.append(p)
+                at_yield.append(_snap(p))
+    except Exception as e:
+        ctx.violation(('empty-script-rejected/%s' if empty else 'collected-patches/wellformed-script-rejected/%s')
+                      % type(e).__name__,
+                      '%s script %r: collecting the patches (%s, source %s) raised %r although the piped form worked'
+                      % (mode, s, use, eff, e), small)
+        return
+    finally:
+        _close(source)
+    # ---- the triples themselves, after full consumption
+    ctx.mon('M.triples')
+    final = [_snap(p) for p in patches]
+    mech = None
+    if None in final:
+        mech = 'not-a-triple'
+    elif len(set(id(p) for p in patches)) < len(patches):
+        mech = 'patch-object-yielded-more-than-once'
+    elif len(final) != len(want):
+        mech = 'patch-count-differs'
+    else:
+        seen, shared = {}, set()
+        for k, p in enumerate(patches):
+            if want[k][2]:                              # d commands may share whatever empty object they like
+                if id(p[2]) in seen:
+                    shared.add(k)
+                    shared.add(seen[id(p[2])])
+                else:
+                    seen[id(p[2])] = k
+        if shared:
+            ctx.count('collect:text-object-shared')
+        for k, (g, w) in enumerate(zip(final, want)):
+            if g[2] != w[2]:
+                if k in shared:
+                    mech = 'text-object-shared-between-patches'
+                elif at_yield is not None and at_yield[k] is not None and at_yield[k][2] == w[2]:
+                    mech = 'text-changed-after-yield'
+                elif g[2] and w[2] and type(w[2][0])().join(g[2]) == type(w[2][0])().join(w[2]):
+                    mech = 'text-block-lines-resplit'
+                else:
+                    mech = 'text-differs-from-script'
+                break
+        if mech is None:
+            for g, w in zip(final, want):
+                if (g[0], g[1]) != (w[0], w[1]) or isinstance(g[0], bool) or isinstance(g[1], bool):
+                    mech = 'index-differs'
+                    break
+        if mech is None and at_yield is not None and at_yield != final:
+            mech = 'patch-changed-after-yield'
+    if mech is None:
+        ctx.count('collect:triples-equal-reference')
+    # ---- collect, then apply
+    if use == 'two-pass' and None not in final:
+        size = len(old_t)
+        for p in patches:                               # a reading pass over the collected patches (inspect only)
+            first, last, text = p
+            size += len(text) - (last - first)
+    o1 = list(old_t)
+    try:
+        ds.patch_lines(o1, patches)
+    except Exception as e:
+        ctx.violation('collected-patches/%s' % (mech or 'apply-raised/%s' % type(e).__name__),
+                      '%s script %r: patch_lines(lines, %s of patches) raised %r; patches=%r reference=%r'
+                      % (mode, s, use, e, patches, want), small)
+        return
+    if o1 != new_t:
+        if empty:
+            key = 'empty-script-changes-lines'
+        else:
+            key = 'collected-patches/%s' % (mech or 'applied-differently-from-the-piped-iterator')
+        ctx.violation(key, '%s: old=%r script=%r collected as %s (source %s): patches=%r reference=%r expected=%r got=%r'
+                      % (mode, old_t, s, use, eff, patches, want, new_t, o1), small)
+        return
+    if mech is not None:
+        # not the reference triples, but they do what the script says: an equivalent formulation is not accused
+        if _model_apply(old_t, final) == new_t:
+            ctx.count('collect:triples-differ-but-equivalent/%s' % mech)
+        else:
+            ctx.count('collect:triples-outside-model/%s' % mech)
+    if use == 'two-pass':
+        o2 = list(old_t)
+        try:
+            ds.patch_lines(o2, patches)
+        except Exception as e:
+            o2 = e
+        if o2 != new_t:
+            after = [_snap(p) for p in patches]
+            ctx.violation('collected-patches/%s' % ('altered-by-patch_lines' if after != final
+                                                     else 'second-application-differs'),
+                          '%s: old=%r script=%r: the collected patches %r gave the target on a first copy of old and %r '
+                          'on a second copy (patches now %r)' % (mode, old_t, s, final, o2, after), small)
 
 
 def check_reject(ctx, case):
